@@ -838,6 +838,16 @@ pub fn run<C: HCfg>(scn: &Scenario, devs: &Devs, opt: &RunOpt) -> ExecResult {
                     n.inject.push((inj.to, inj.from, inj.msg.clone(), inj.before));
                 }
             }
+            if rel >= scn.fault.start && rel < scn.fault.end && rel < scn.horizon {
+                for (gi, group) in scn.fault.link_rounds.iter().enumerate() {
+                    let c = n.chooser.choose(crate::chooser::PK_LINK, 2, rel, gi as u32);
+                    if c == 1 {
+                        for (f, t) in group {
+                            n.outages.push(crate::net::Outage { from: *f, to: *t, start: rel, len: 1, classes: 0xFF });
+                        }
+                    }
+                }
+            }
             for inj in &scn.inject {
                 if inj.round == rel {
                     n.inject.push((inj.to, inj.from, crate::wire::from_wire(&inj.msg), inj.before));
